@@ -265,7 +265,7 @@ inductive Ev (α : Type) where
   | ef                              -- `rw.w.Flush()`
   | ec                              -- `rw.w.Close()`
   | fl                              -- `Flush()` of the wrapped writer
-deriving Repr
+deriving DecidableEq, Repr
 
 structure Cfg (α : Type) where
   minLen : Int                      -- after Provision (0 has become 512)
@@ -435,7 +435,7 @@ inductive Op (α : Type) where
   | hset (k v : Bytes)
   | hadd (k v : Bytes)
   | hdel (k : Bytes)
-deriving Repr
+deriving DecidableEq, Repr
 
 /-- one call on the encode `responseWriter` -/
 def step (cfg : Cfg α) (st : St α) : Op α → St α
